@@ -12,6 +12,9 @@ CLAIMED = {
  'C06': ('title-refresh decision kernel: kind kept, destination kept, title of the note the link resolves to, for every link kind / position / url form / directory pair in the table', '3 C06'),
  'C07': ('outline laws with symbolic heading levels: order kept, emitted outline well nested, well-nested input keeps identical levels, '
          'blocks stay under the nearest preceding heading / same list item / quote', '3 C07'),
+ 'C09': ('extract / inline code actions at tree level: text conserved exactly once across the edited notes, fresh distinct names, one titled reference per extracted section, inlined note deleted and its links re-relativised, for every node x provider within the bounds', '3 C09'),
+ 'C10': ('list/section conversions at tree level: only the note is rewritten, every word and link kept in order, only the targeted list changes type', '3 C10'),
+ 'C12': ('handler -> liwe boundary for code actions: no panic edge reachable in action()/changes() for any node x provider, every offered action resolves', '3 C12'),
  'C13': ('offset -> line/column kernels: to_line_range / to_inline_range for every sorted line table and byte range (symbolic 64-bit), line_starts for every line structure with LF / CRLF terminators and symbolic line lengths', '3 C13'),
  'C17': ('squash == independent bounded expansion for every reference graph within the bounds and symbolic u8 depth; termination (call-depth bound never hit); CLI rebuild of the squashed tree is faithful', '3 C17'),
  'C18': ('outline paths == independent forward enumeration over the documents (soundness of every listed chain, completeness for every heading, finiteness under cycles, rank ordering of the search list), heading levels symbolic', '3 C18'),
